@@ -76,6 +76,8 @@ Forms == {
   [n |-> "assoc_section", slots |-> 0, subs |-> {}],                  \* associate (row => sinx(2:3)) / x = row(1)   -- an array section is no call
   [n |-> "assoc_funcsel", slots |-> 1, subs |-> {}],                  \* associate (z => E) / x = z + z              -- calls inside the selector only
   [n |-> "extern", slots |-> 0, subs |-> {"extf"}],                   \* real :: extf / external extf / x = extf(1.0) -- pre-F90 declaration of an external function
+  [n |-> "shadow_local", slots |-> 1, subs |-> {}],                   \* real :: weights(3) next to a use-associated function weights: x = weights(2) + E is an array element
+  [n |-> "shadow_dummy", slots |-> 0, subs |-> {"inner"}],            \* call inner(): the same reference inside an internal procedure, for an array of the host (host association beats use association)
   [n |-> "return", slots |-> 0, subs |-> {}]}            \* no call at all
 
 Init == form = << >> /\ args = <<>> /\ phase = "init" /\ out = {}
@@ -95,7 +97,7 @@ Emit == /\ phase = "chosen" /\ phase' = "done" /\ out' = CallSet /\ UNCHANGED <<
 Next == Choose \/ Emit
 Spec == Init /\ [][Next]_vars
 
-IntrinsicsAndVariablesNeverCalls == phase = "chosen" => CallSet \subseteq {"fa", "fb", "size_of", "p", "iffy", "circle%reset", "circle%area", "logger%reset", "extf"}
+IntrinsicsAndVariablesNeverCalls == phase = "chosen" => CallSet \subseteq {"fa", "fb", "size_of", "p", "iffy", "circle%reset", "circle%area", "logger%reset", "extf", "inner"}
 LiteralsNeverCalls == phase = "chosen" =>
    ((form.n = "assign" /\ args[1] = Leaf("'call fa(x)'")) => CallSet = {})
 NeverNested == ~(phase = "chosen" /\ Cardinality(CallSet) >= 3)     \* vacuity guard
